@@ -135,12 +135,12 @@ theorem emitBlock_cases (hw : ObsWriter wr obs) (cfg : Cfg) (hp : ∀ b, (cfg.pi
     ((∃ s, (emitBlock wr cfg f st).1 = some (.panic s) ∧ (emitBlock wr cfg f st).2.codec = st.codec ∧
         (emitBlock wr cfg f st).2.n = st.n ∧
         (readPanics cfg.v1shape f cfg.bs (st.buf.take cfg.bs).length (st.buf.drop cfg.bs).length = true ∨
-         assertPanics cfg.v1shape f (st.buf.take cfg.bs).length st.n = true)) ∨
+         assertPanics cfg.v1shape cfg.assertExtra f (st.buf.take cfg.bs).length st.n = true)) ∨
      (∃ e, cfg.pkt st.n (st.buf.take cfg.bs) f = .error e ∧ (emitBlock wr cfg f st).1 = some e ∧
         (emitBlock wr cfg f st).2.codec = st.codec ∧ (emitBlock wr cfg f st).2.n = st.n) ∨
      (∃ b, cfg.pkt st.n (st.buf.take cfg.bs) f = .ok b ∧
         readPanics cfg.v1shape f cfg.bs (st.buf.take cfg.bs).length (st.buf.drop cfg.bs).length = false ∧
-        assertPanics cfg.v1shape f (st.buf.take cfg.bs).length st.n = false ∧
+        assertPanics cfg.v1shape cfg.assertExtra f (st.buf.take cfg.bs).length st.n = false ∧
         (((emitBlock wr cfg f st).1 = none ∧ (emitBlock wr cfg f st).2.n = st.n + 1 ∧ st.codec.failed = false ∧
             (emitBlock wr cfg f st).2.codec.failed = false ∧
             obs (emitBlock wr cfg f st).2.codec.w = obs st.codec.w ++ b) ∨
@@ -164,12 +164,12 @@ theorem emitBlock_cases (hw : ObsWriter wr obs) (cfg : Cfg) (hp : ∀ b, (cfg.pi
       exact ⟨rfl, rfl, Or.inr (Or.inl ⟨e, rfl, rfl, rfl, rfl⟩)⟩
     | ok b =>
       simp only [hpk] at hres
-      by_cases ha : assertPanics cfg.v1shape f (st.buf.take cfg.bs).length st.n = true
+      by_cases ha : assertPanics cfg.v1shape cfg.assertExtra f (st.buf.take cfg.bs).length st.n = true
       · simp only [ha, if_true] at hres
         subst hres
         exact ⟨rfl, rfl, Or.inl ⟨_, rfl, rfl, rfl, Or.inr ha⟩⟩
       · simp only [ha, Bool.false_eq_true, if_false] at hres
-        have ha' : assertPanics cfg.v1shape f (st.buf.take cfg.bs).length st.n = false := by simpa using ha
+        have ha' : assertPanics cfg.v1shape cfg.assertExtra f (st.buf.take cfg.bs).length st.n = false := by simpa using ha
         cases he : Codec.encode wr cfg.pieces st.codec b with
         | mk ok c' =>
           simp only [he] at hres
